@@ -259,3 +259,21 @@ def dict_remove_shifts(ctx):
                     sub = True
     ctx.check(gt and sub, rb.key, 'index > removed => index -= 1', 'the shift is not `if index > removed { index -= 1 }` (Gt=%s, -1=%s)' % (gt, sub),
               'Gt comparison and decrement by one', rb.where())
+
+
+@rule('C03', 'keygen-total', configs=('default', 'p256'))
+def keygen_total(ctx):
+    """Edits (disable in particular) never change who can open encapsulations for unrelated attributes: key generation
+    hands out one secret per requested right (a plain map over the rights, no filtering), and neither it nor refresh /
+    prune looks at the activation flag."""
+    from .c06 import check_flag_readers
+    F = ctx.F
+    gb = F.fn('core::MasterSecretKey::get_latest_right_sk')
+    bad = []
+    for fb in lib.reach_bodies(F, gb.key):
+        bad += fb.calls(r'^std::iter::Iterator::(filter|filter_map|flat_map|skip|take|take_while|skip_while|step_by|flatten)$')
+    mp = gb.calls(r'^std::iter::Iterator::map$')
+    ctx.check(len(mp) == 1 and not bad, gb.key, 'one secret per requested right',
+              'get_latest_right_sk does not map every requested right to exactly one result (%s): rights can be silently dropped from '
+              'a generated key' % ([c.name for c in bad] or 'no single map'), 'rs.map(..) only', gb.where())
+    check_flag_readers(ctx, F)
